@@ -180,7 +180,21 @@ func ps8(p *core.Prog, rep *core.Report, sc ps8Scope) {
 								nonNil = iff.Block().Succs[1]
 							}
 							if len(nonNil.Preds) != 1 {
-								continue // shared block (e.g. "err == nil || ..."): cannot be a swallowing branch by itself
+								// shared block (e.g. "err == nil || ..."): not a swallowing branch by itself - unless this
+								// test is all that ever looks at the error (`if err != nil { continue }`: the empty branch
+								// is threaded away and the non-nil edge simply joins the normal path)
+								onlyTests := true
+								for _, r3 := range *e.Referrers() {
+									if b3, ok := r3.(*ssa.BinOp); !ok || !(core.IsNilConst(b3.X) || core.IsNilConst(b3.Y)) {
+										if _, isDbg := r3.(*ssa.DebugRef); !isDbg {
+											onlyTests = false
+										}
+									}
+								}
+								if onlyTests && hasErrResult && !isStatProbe(ci.Common()) {
+									verdict = "the non-nil edge of the test at " + p.InstrPos(iff) + " joins the normal path and nothing else looks at the error: it is ignored (continue / empty branch)"
+								}
+								continue
 							}
 							if isStatProbe(ci.Common()) {
 								continue
